@@ -90,6 +90,11 @@ class Cfg:
             self.ic = [k for k in self.ic if k not in self.bc_late]
             self.countas = [k for k in self.countas if k not in self.bc_late]
         self.tsc = g("tsc", 1) != 0
+        self.vos = (not self.tsc) and g("vos", 0) != 0
+        if self.vos:
+            # the OS-timer path on the scripted clock: readings are nanoseconds, observable like counter readings
+            self.tsc = True
+            self.freq = 10 ** 9
         self.local = self.entry in LOCAL_ENTRIES
         self.eff_T = 1 if self.local else self.T
         self.tuned = (self.s < 0) and not self.test
